@@ -190,13 +190,13 @@ def _cells_slice(line, a, b):
 from vf.common import ref_width_concrete as rwc  # noqa: E402
 
 
-def _mk_tables(ncol, tiers, timeout, wmax):
-    @symx("C07-render-%dcol-w%d" % (ncol, wmax), tiers=tiers, timeout=timeout, kind="C+S", functions=F_T7,
-          bounds="ASCII-box tables with %d fold-overflow columns x 0..3 rows x header on/off x padding left/right 0..2 x expand x ratio "
-                 "vectors %r x cell contents rotated through %r x available width from the structural minimum to %d "
+def _mk_tables(ncol, ri, tiers, timeout, wmax):
+    @symx("C07-render-%dcol-ratios%d-w%d" % (ncol, ri, wmax), tiers=tiers, timeout=timeout, kind="C+S", functions=F_T7,
+          bounds="ASCII-box tables with %d fold-overflow columns, ratio vector %r x 0..%d rows x header on/off x padding left/right "
+                 "0..2 x expand x cell contents rotated through %r x available width from the structural minimum to %d "
                  "(solver-enumerated, native): all lines equally wide (== width when expanding); rows in insertion order on "
                  "disjoint line ranges; every non-whitespace character of every cell (and header) appears, in order, inside its "
-                 "column's span located from the border" % (ncol, _RATIOS, _CELLS, wmax),
+                 "column's span located from the border" % (ncol, _RATIOS[ri], 3 if wmax > 40 else 2, _CELLS, wmax),
           outside="more than 3 columns / 3 rows; boxes other than ASCII for the content clause (border widths for every box: "
                   "C07-box-rows-*)")
     def h(e):
@@ -204,13 +204,15 @@ def _mk_tables(ncol, tiers, timeout, wmax):
         hdr = bool(e.mkbool("header"))
         pl, pr = int(e.mk("pad_left", 0, 2)), int(e.mk("pad_right", 0, 2))
         expand = bool(e.mkbool("expand"))
-        ri = int(e.mk("ratios", 0, len(_RATIOS) - 1))
-        shift = int(e.mk("content_shift", 0, 2))
+        shift = int(e.mk("content_shift", 0, 2 if wmax > 40 else 1))
         w = int(e.mk("width", 1, wmax))
         return _table_ok(ncol, nrow, hdr, pl, pr, expand, ri, w, shift)
     return h
 
 
 for _n in (1, 2, 3):
-    _mk_tables(_n, ("quick",), 900, 22 + 4 * _n)
-    _mk_tables(_n, ("thorough",), 3400, 70)
+    for _ri in range(len(_RATIOS)):
+        if _n == 1 and _ri > 1:
+            continue
+        _mk_tables(_n, _ri, ("quick",), 900, 16 + 4 * _n)
+        _mk_tables(_n, _ri, ("thorough",), 3400, 60)
